@@ -74,11 +74,11 @@ static bool foreign_seed_inside(const std::vector<sched::Event> &tr) {
 static void *noise_thread(void *arg) { int k = *(int *)arg; for (int i = 0; i < k; i++) { srand_(1000u + (unsigned)i); (void)randInt(0, 10); (void)rand_(); } return nullptr; }
 
 struct SchedRun { M pred; std::map<unsigned, M> folds; bool foreign; long decisions; std::vector<int> taken, options; };
-static SchedRun scheduled_boot(const Data &D, int groups, int iters, int threads, const std::vector<int> &choices, int noise) {
+static SchedRun scheduled_boot(const Data &D, int groups, int iters, int threads, const std::vector<int> &choices, int noise, bool fine = false) {
   SchedRun r;
   { std::lock_guard<std::mutex> lk(g_mu); g_folds.clear(); g_foldcalls = 0; }
   libsci_verif_fold_hook = fold_hook; libsci_verif_rng_hook = sched::rng_hook;
-  sched::S().start(choices);
+  sched::S().start(choices, fine);
   pthread_t nt; int nn = noise;
   if (noise > 0) pthread_create(&nt, NULL, noise_thread, &nn);     // registered with the scheduler like a library thread
   r.pred = run_boot(D, groups, iters, threads);
@@ -105,16 +105,16 @@ static void gen_sched(Draw &d, Case &c) {
   int gmin = 2; while (D.n - (D.n + gmin - 1) / gmin < (learner == L_LDA ? D.n - 2 : D.p + 3) && gmin < D.n) gmin++;
   int groups = (int)d.i(gmin, D.n);
   int noise = d.coin(35) ? (int)d.i(1, 6) : 0;
-  int len = (int)d.i(0, 120);
-  put_data(c, D); c.p.insert(c.p.end(), {groups, iters, threads, noise, len});
+  int len = (int)d.i(0, 160), fine = d.coin(50) ? 1 : 0;
+  put_data(c, D); c.p.insert(c.p.end(), {groups, iters, threads, noise, fine, len});
   auto ch = d.ivec((size_t)len, 0, 7); for (auto x : ch) c.p.push_back(x);
-  c.tags.push_back(std::string("learner=") + lname[learner]); c.tags.push_back(fmt("workers=%d", threads)); if (noise) c.tags.push_back("noise-thread");
+  c.tags.push_back(std::string("learner=") + lname[learner]); c.tags.push_back(fmt("workers=%d", threads)); if (noise) c.tags.push_back("noise-thread"); if (fine) c.tags.push_back("yield-also-inside-generator-calls");
 }
 static void pred_sched(const Case &c) {
-  Reader rd(c); Data D = read_data(rd); int groups = (int)rd.i(), iters = (int)rd.i(), threads = (int)rd.i(), noise = (int)rd.i(), len = (int)rd.i();
+  Reader rd(c); Data D = read_data(rd); int groups = (int)rd.i(), iters = (int)rd.i(), threads = (int)rd.i(), noise = (int)rd.i(), fine = (int)rd.i(), len = (int)rd.i();
   std::vector<int> ch((size_t)len); for (auto &x : ch) x = (int)rd.i();
   M seq; std::map<unsigned, M> fseq; sequential(D, groups, iters, seq, fseq);
-  SchedRun r = scheduled_boot(D, groups, iters, threads, ch, noise);
+  SchedRun r = scheduled_boot(D, groups, iters, threads, ch, noise, fine != 0);
   if (r.foreign) { nontrivial(); tag("foreign-srand-between-seed-and-last-draw"); }
   tag(r.decisions < 10 ? "decisions<10" : r.decisions < 50 ? "decisions<50" : "decisions>=50");
   compare_runs(seq, fseq, r.pred, r.folds, fmt("BootstrapRandomGroupsCV(%s, %d workers, %d iterations, %d groups, n=%d%s) under a generated schedule", lname[D.learner], threads, iters, groups, D.n, noise ? ", noise thread" : ""));
@@ -122,26 +122,28 @@ static void pred_sched(const Case &c) {
 
 // ---- enumerate: all interleavings of tiny configurations --------------------------------------------
 static void gen_enum(Draw &d, Case &c) {
-  int cfg = (int)d.i(0, 2);   // 0: 2 workers n=3, 1: 2 workers n=4, 2: 3 workers n=3
+  int cfg = (int)d.i(0, 3);   // 0: 2 workers n=3, 1: 2 workers n=4, 2: 3 workers n=3, 3: 2 workers n=3 with yields inside the generator calls
   int workers = cfg == 2 ? 3 : 2, n = cfg == 1 ? 4 : 3;
   Data D = small_data(d, L_MLR, n, n);
   put_data(c, D); c.p.insert(c.p.end(), {workers, cfg});
-  c.nontrivial = true; c.tags.push_back(fmt("config=%d-workers-%d-objects", workers, n));
+  c.nontrivial = true; c.tags.push_back(fmt("config=%d-workers-%d-objects%s", workers, n, cfg == 3 ? "-fine" : ""));
 }
 static void pred_enum(const Case &c) {
   Reader rd(c); Data D = read_data(rd); int workers = (int)rd.i(), cfg = (int)rd.i();
   int groups = D.n, iters = workers;
   M seq; std::map<unsigned, M> fseq; sequential(D, groups, iters, seq, fseq);
-  std::vector<int> ch; long count = 0, foreign = 0; const long cap = cfg == 2 ? 6000 : 120000;
+  std::vector<int> ch; long count = 0, foreign = 0; const bool thorough = getenv("VERIF_TIER") && std::string(getenv("VERIF_TIER")) == "thorough";
+  // configuration 0 is always enumerated completely (a few thousand interleavings); the larger ones are capped in the quick tier
+  const long cap = cfg == 0 ? 1000000 : cfg == 1 ? (thorough ? 400000 : 30000) : cfg == 2 ? (thorough ? 30000 : 3000) : (thorough ? 300000 : 10000);
   bool exhausted = false;
   while (true) {
-    SchedRun r = scheduled_boot(D, groups, iters, workers, ch, 0);
+    SchedRun r = scheduled_boot(D, groups, iters, workers, ch, 0, cfg == 3);
     count++; if (r.foreign) foreign++;
     compare_runs(seq, fseq, r.pred, r.folds, fmt("BootstrapRandomGroupsCV(MLR, %d workers, n=%d), interleaving #%ld of the exhaustive enumeration", workers, D.n, count));
     std::vector<int> nx; if (!sched::next_schedule(r.taken, r.options, nx)) { exhausted = true; break; }
     ch = nx; if (count >= cap) break;
   }
-  tag(exhausted ? fmt("all-interleavings-enumerated(config %d)", cfg) : fmt("enumeration-capped-at-%ld(config %d)", cap, cfg));
+  tag(exhausted ? fmt("all-interleavings-enumerated(config %d)", cfg) : fmt("enumeration-capped(config %d)", cfg));
   tag(count < 100 ? "interleavings<100" : count < 1000 ? "interleavings<1e3" : count < 10000 ? "interleavings<1e4" : "interleavings>=1e4");
   VF_CHECK(foreign > 0, "harness: no enumerated interleaving had a foreign srand_ inside a worker's seed..draw window (%ld schedules)", count);
 }
